@@ -575,6 +575,20 @@ impl std::fmt::Debug for Model {
     }
 }
 
+/// Verification hooks (used by the checkers in /verif). Not part of the API.
+#[cfg(rten_verif)]
+impl Model {
+    /// Return the graph that this model executes.
+    pub fn verif_graph(&self) -> &Graph {
+        &self.graph
+    }
+
+    /// Return the cache of prepacked weights used by this model's runs.
+    pub fn verif_weight_cache(&self) -> &WeightCache {
+        &self.weight_cache
+    }
+}
+
 /// Provides access to metadata about a graph node.
 pub struct NodeInfo<'a> {
     node: &'a Node,
